@@ -87,7 +87,7 @@ func drawInner(sim *simrt.Sim) {
 // drawClock draws the behaviour of the simulated clock (schedule stream). It
 // only matters for a library that reads the time; the pinned tree does not.
 func drawClock(sim *simrt.Sim) {
-	sim.Procs = []int{4, 1, 2, 8, 16}[sim.Sched.Draw(5)] // what the library is told about the machine
+	sim.Procs = []int{4, 1, 2, 8, 16, 3, 6, 12, 7, 64}[sim.Sched.Draw(10)] // what the library is told about the machine
 	sim.ClockTick = []time.Duration{time.Microsecond, time.Millisecond, 50 * time.Millisecond, time.Second}[sim.Sched.Draw(4)]
 	if sim.Sched.Draw(2) == 1 {
 		sim.ClockJumpNum = 32
